@@ -25,6 +25,73 @@ Definition sym_of (t : term) : sym :=
 Definition of_optname (o : option string) : term := match o with Some n => TL [TS n] | None => TL [] end.
 Definition optname_of (t : term) : option string := match gl t with [x] => Some (gs x) | _ => None end.
 
+(* ---- sessions ---- *)
+Definition sev_of (t : term) : sev :=
+  let k := gs (gn t 0) in
+  if String.eqb k "open" then SOpen (Z.to_nat (gz (gn t 1))) (gz (gn t 2)) (gz (gn t 3)) (gz (gn t 4))
+  else if String.eqb k "addr" then SAddr (Z.to_nat (gz (gn t 1))) (gz (gn t 2))
+  else SNop.
+Definition of_sobs (o : sobs) : term :=
+  match o with
+  | OOpen None => TL [TS "ok"]
+  | OOpen (Some c) => TL [TS "err"; TZ c]
+  | OAddr r => of_res r
+  | ONone => TL []
+  | OBad => TL [TS "bad-handle"]
+  end.
+Definition sobs_of (e : sev) (t : term) : sobs :=
+  match e with
+  | SOpen _ _ _ _ => if String.eqb (gs (gn t 0)) "ok" then OOpen None else OOpen (Some (gz (gn t 1)))
+  | SAddr _ _ => OAddr (res_of t)
+  | SNop => ONone
+  end.
+Fixpoint sobs_list (evs : list sev) (ts : list term) : list sobs :=
+  match evs, ts with
+  | e :: r, t :: rt => sobs_of e t :: sobs_list r rt
+  | _, _ => []
+  end.
+Definition is_open (t : term) : bool := String.eqb (gs (gn t 0)) "open".
+Definition open_emap (t : term) : emap :=
+  {| em_start := gz (gn t 2); em_limit := gz (gn t 3); em_offset := gz (gn t 4); em_koff := None |}.
+(* (handle, open event, its observable) for every Open of the history *)
+Fixpoint opens_with_obs (h : nat) (evts obs : list term) : list (nat * term * term) :=
+  match evts, obs with
+  | e :: r, o :: ro => if is_open e then (h, e, o) :: opens_with_obs (S h) r ro else opens_with_obs h r ro
+  | _, _ => []
+  end.
+
+Definition spec_session (i o : term) : bool :=
+  let files := map elf_of (gl (gn i 1)) in
+  let evts := gl (gn i 2) in
+  let evs := map sev_of evts in
+  let os := sobs_list evs (gl o) in
+  (List.length evts =? List.length (gl o))%nat &&
+  forallb (fun x =>
+    let '(h, e, ob) := x in
+    let bias := gz (gn e 5) in
+    let ef := nth (Z.to_nat (gz (gn e 1))) files elf0 in
+    let m := open_emap e in
+    if 0 <=? bias then
+      (* a loader-made mapping of a user-space object can always be opened ... *)
+      (if user_elfb ef && (0 <? em_start m) && (em_start m <? two63) then String.eqb (gs (gn ob 0)) "ok" else true) &&
+      (* ... and the object translates by its own bias, whatever the rest of the history is *)
+      spec_handle ef bias m (addrs_of h evs) (answers_of h evs os)
+    else true) (opens_with_obs 0 evts (gl o)).
+
+Definition cls_session (i : term) : list Z :=
+  let files := map elf_of (gl (gn i 1)) in
+  let evts := gl (gn i 2) in
+  let evs := map sev_of evts in
+  if existsb (fun x =>
+       let '(h, e, _) := x in
+       let bias := gz (gn e 5) in
+       (0 <=? bias) &&
+       match addrs_of h evs with
+       | a0 :: _ => any_F23 (nth (Z.to_nat (gz (gn e 1))) files elf0) bias (open_emap e) a0
+       | [] => false
+       end) (opens_with_obs 0 evts evts)
+  then [23] else [].
+
 Definition run_C13 (i : term) : term :=
   let op := gs (gn i 0) in
   if String.eqb op "getbase" then
@@ -48,6 +115,8 @@ Definition run_C13 (i : term) : term :=
     let tab := shift_syms (gz (gn i 1)) (map sym_of (gl (gn i 2))) in
     TL (map (fun a => of_optname (addr_info tab a)) (gzs (gn i 3)))
   else if String.eqb op "maps" then TL []
+  else if String.eqb op "session" then
+    TL (map of_sobs (session_run (map elf_of (gl (gn i 1))) (map sev_of (gl (gn i 2)))))
   else if String.eqb op "a2lnm" then
     let base := gz (gn i 1) in
     let nm := if gb (gn i 3) then Some (shift_syms base (map sym_of (gl (gn i 2)))) else None in
@@ -67,6 +136,7 @@ Definition cls_C13 (i : term) : list Z :=
     | a0 :: _ => if any_F23 (elf_of (gn i 1)) (case_bias i) (case_emap i) a0 then [23] else []
     | [] => []
     end
+  else if String.eqb (gs (gn i 0)) "session" then cls_session i
   else [].
 
 Definition spec_C13 (i o : term) : bool :=
@@ -87,6 +157,7 @@ Definition spec_C13 (i o : term) : bool :=
     let addrs := gzs (gn i 3) in
     (List.length addrs =? List.length (gl o))%nat &&
     forallb (fun ar => spec_addr_info tab (fst ar) (optname_of (snd ar))) (combine addrs (gl o))
+  else if String.eqb op "session" then spec_session i o
   else if String.eqb op "a2lnm" then
     if gb (gn i 3) then spec_a2l_fixup (shift_syms (gz (gn i 1)) (map sym_of (gl (gn i 2)))) (gz (gn i 4)) (gss (gn i 5)) (gss o)
     else strs_eqb (gss o) (gss (gn i 5))
